@@ -261,6 +261,7 @@ func genCase(t *rapid.T) *Case {
 	c.G.TS = gen.Pick(t, []int{rt.TSNone, rt.TSIgnore, rt.TSRedirect}, "globalTS")
 	c.G.NoMethod = rapid.Bool().Draw(t, "noMethod")
 	c.G.AutoOptions = rapid.Bool().Draw(t, "autoOptions")
+	c.G.NoMethodOff = !c.G.NoMethod && gen.Chance(t, 1, 3, "nomethodoff")
 	if gen.Chance(t, 1, 4, "presetallow") {
 		c.PresetAllow = gen.Pick(t, []string{"TRACE", "GET, BREW", "OPTIONS"}, "presetallowvalue")
 	}
